@@ -1,3 +1,402 @@
-/-! C03 property theorems — stub (not built yet). -/
+import TTModel.C03_Rescale
+import TTProofs.Lemmas.C03_Rescale
+import TTProofs.Lemmas.ScalarReal
+import TTProofs.Lemmas.C03_Example
+import Mathlib.Analysis.SpecialFunctions.Log.Basic
+/-!
+# C03 — rescaled, safe and plain pruning denote the same log-likelihood; the flag is sticky
+
+All statements are over `ℝ` (the float64 execution is compared with the exact model by the sweep
+in `harness/c03.py`; that it stays within 1e-8 is an IEEE statement that is NOT proved here).
+
+Hypotheses that appear below
+* `wf T ts`: the triples are a post-order of a binary tree with tips `< T` (every internal slot
+  written once, used as a child once, the last node is the root).  Needed: the code adds the log
+  of EVERY appended scaler, which is right only if every rescaled node hangs below the root.
+  The harness checks `wf` on the post-order of every real tree model it builds.
+* every appended scaler is positive (any choice of scalers, in particular the code's `max`);
+* the plain site likelihood is positive ("the true value is finite").
+
+The `example`s instantiate the hypotheses on `TT.C03.Ex` (3 tips, 2 states, post-order
+`[(3,0,1),(4,3,2)]`, matrices `[[3/4,1/4],[1/4,3/4]]`; plain site value 3/32).
+
+NOT provable here (IEEE statements; covered by the exact-reference sweep of `harness/c03.py`):
+  `float64 execution of peelRescaled / peelSafe stays within relative 1e-8 of the real value for
+   every tree size`, and `the plain pass is accurate whenever TreeLikelihoodModel keeps its result`
+  (false before fix F21: denormal band).
+-/
+open TT TT.C03
+
 namespace TTProps.C03
+
+variable {N K S : Nat}
+
+/-- **rescaled = plain, per site**, for any tree, matrices, tips, start list and ANY positive
+  scalers: `log(site value of the scaled root) + Σ_nodes log scaler = log(plain site value)`.
+  `tipCount = 0`: `calculate_treelikelihood_discrete_rescaled`; `tipCount = T`: the tip-state one. -/
+theorem rescaled_eq_plain (T tipCount : Nat) (hT : tipCount ≤ T)
+    (scaler : Nat → Fin N → Part ℝ N K S → ℝ) (tipc : Nat → Fin N → Fin K → Fin S → ℝ)
+    (M : Mats ℝ K S) (freqs : Fin S → ℝ) (props : Fin K → ℝ) (st : Store ℝ N K S)
+    (ts : List Triple) (hwf : wf T ts = true)
+    (hpos : ∀ sc ∈ (peelRescaledWith scaler tipCount tipc M st ts).scalers, ∀ n : Fin N, 0 < sc[n])
+    (n : Fin N) (hlik : 0 < siteLik freqs props ((peel tipCount tipc M st ts).get (rootOf ts)) n) :
+    Trans.log (siteLik freqs props
+        ((peelRescaledWith scaler tipCount tipc M st ts).st.get (rootOf ts)) n)
+      + logScalers (peelRescaledWith scaler tipCount tipc M st ts).scalers n
+    = Trans.log (siteLik freqs props ((peel tipCount tipc M st ts).get (rootOf ts)) n) := by
+  have hmul := siteLik_rescaled_mul hT scaler tipc M freqs props st ts hwf
+    (fun sc h n => (hpos sc h n).ne') n
+  set rs := peelRescaledWith scaler tipCount tipc M st ts with hrs
+  have hne : ∀ x ∈ rs.scalers.map (fun sc => sc[n]), x ≠ 0 := by
+    intro x hx
+    obtain ⟨sc, hsc, rfl⟩ := List.mem_map.mp hx
+    exact (hpos sc hsc n).ne'
+  have hprodpos : (0 : ℝ) < (rs.scalers.map fun sc => sc[n]).prod := by
+    apply List.prod_pos
+    intro x hx
+    obtain ⟨sc, hsc, rfl⟩ := List.mem_map.mp hx
+    exact hpos sc hsc n
+  have hq : siteLik freqs props (rs.st.get (rootOf ts)) n ≠ 0 := by
+    intro h0
+    rw [hmul, h0, mul_zero] at hlik
+    exact lt_irrefl _ hlik
+  rw [hmul]
+  simp only [trans_log_real, logScalers]
+  rw [Real.log_mul hprodpos.ne' hq, Real.log_list_prod hne, List.map_map]
+  rw [add_comm]
+  rfl
+
+/-- hypotheses of `rescaled_eq_plain` are met: any constant positive scaler (here 2) on `Ex` -/
+example : Trans.log (siteLik Ex.inp.freqs Ex.inp.props
+        ((peelRescaledWith (fun _ _ _ => (2 : ℝ)) 0 noTips Ex.M Ex.tips Ex.ts).st.get (rootOf Ex.ts)) 0)
+      + logScalers (peelRescaledWith (fun _ _ _ => (2 : ℝ)) 0 noTips Ex.M Ex.tips Ex.ts).scalers 0
+    = Trans.log (siteLik Ex.inp.freqs Ex.inp.props ((peel 0 noTips Ex.M Ex.tips Ex.ts).get (rootOf Ex.ts)) 0) :=
+  rescaled_eq_plain 3 0 (by omega) _ noTips Ex.M _ _ Ex.tips Ex.ts Ex.wf_ts
+    (by
+      intro sc hsc n
+      simp only [peelRescaledWith, Ex.ts, List.foldl_cons, List.foldl_nil, rescStep, List.nil_append,
+        List.cons_append, List.mem_cons, List.not_mem_nil, or_false] at hsc
+      rcases hsc with rfl | rfl <;> simp)
+    0 (Ex.plain_lik Ex.tips (fun _ _ => rfl) 0)
+
+/-- the same with the code's scaler, `max` over categories and states per site
+  (`calculate_treelikelihood_discrete_rescaled`, `_tip_states_discrete_rescaled`) -/
+theorem rescaled_eq_plain_max (T tipCount : Nat) (hT : tipCount ≤ T)
+    (tipc : Nat → Fin N → Fin K → Fin S → ℝ)
+    (M : Mats ℝ K S) (freqs : Fin S → ℝ) (props : Fin K → ℝ) (st : Store ℝ N K S)
+    (ts : List Triple) (hwf : wf T ts = true)
+    (hpos : ∀ sc ∈ (peelRescaled tipCount tipc M st ts).scalers, ∀ n : Fin N, 0 < sc[n])
+    (n : Fin N) (hlik : 0 < siteLik freqs props ((peel tipCount tipc M st ts).get (rootOf ts)) n) :
+    Trans.log (siteLik freqs props ((peelRescaled tipCount tipc M st ts).st.get (rootOf ts)) n)
+      + logScalers (peelRescaled tipCount tipc M st ts).scalers n
+    = Trans.log (siteLik freqs props ((peel tipCount tipc M st ts).get (rootOf ts)) n) :=
+  rescaled_eq_plain T tipCount hT _ tipc M freqs props st ts hwf hpos n hlik
+
+example : Trans.log (siteLik Ex.inp.freqs Ex.inp.props
+        ((peelRescaled 0 noTips Ex.M Ex.tips Ex.ts).st.get (rootOf Ex.ts)) 0)
+      + logScalers (peelRescaled 0 noTips Ex.M Ex.tips Ex.ts).scalers 0
+    = Trans.log (siteLik Ex.inp.freqs Ex.inp.props ((peel 0 noTips Ex.M Ex.tips Ex.ts).get (rootOf Ex.ts)) 0) :=
+  rescaled_eq_plain_max 3 0 (by omega) noTips Ex.M _ _ Ex.tips Ex.ts Ex.wf_ts
+    (Ex.resc_pos Ex.tips (fun _ _ => rfl)) 0 (Ex.plain_lik Ex.tips (fun _ _ => rfl) 0)
+
+/-- **the returned numbers agree**: `sum((log(...) + Σ log scalers) * weights)` of the rescaled
+  pass equals `sum(log(...) * weights)` of the plain pass -/
+theorem logLik_rescaled_eq_plain (T tipCount : Nat) (hT : tipCount ≤ T)
+    (scaler : Nat → Fin N → Part ℝ N K S → ℝ) (tipc : Nat → Fin N → Fin K → Fin S → ℝ)
+    (M : Mats ℝ K S) (freqs : Fin S → ℝ) (props : Fin K → ℝ) (w : Fin N → ℝ) (st : Store ℝ N K S)
+    (ts : List Triple) (hwf : wf T ts = true)
+    (hpos : ∀ sc ∈ (peelRescaledWith scaler tipCount tipc M st ts).scalers, ∀ n : Fin N, 0 < sc[n])
+    (hlik : ∀ n, 0 < siteLik freqs props ((peel tipCount tipc M st ts).get (rootOf ts)) n) :
+    logLikScaled freqs props w ((peelRescaledWith scaler tipCount tipc M st ts).st.get (rootOf ts))
+        (peelRescaledWith scaler tipCount tipc M st ts).scalers
+      = logLikPlain freqs props w ((peel tipCount tipc M st ts).get (rootOf ts)) := by
+  unfold logLikScaled logLikPlain
+  congr 1
+  funext n
+  rw [rescaled_eq_plain T tipCount hT scaler tipc M freqs props st ts hwf hpos n (hlik n)]
+
+
+/-- **safe = plain, per site**: the mixed pass `calculate_treelikelihood_discrete_safe`, run on the
+  list `Pf` a plain pass with the same matrices left behind (`Consistent`), for ANY threshold test
+  `below` and ANY positive scalers; nodes that are not rescaled contribute no scaler. The value is
+  compared with the plain site value, which is what `Pf` holds at the root. -/
+theorem safe_eq_plain_of_consistent (T : Nat) (below : Part ℝ N K S → Bool)
+    (scaler : Nat → Fin N → Part ℝ N K S → ℝ) (M : Mats ℝ K S) (freqs : Fin S → ℝ)
+    (props : Fin K → ℝ) (Pf : Store ℝ N K S) (ts : List Triple) (hwf : wf T ts = true)
+    (hcons : Consistent Pf M ts)
+    (hpos : ∀ sc ∈ (peelSafeWith below scaler M Pf ts).scalers, ∀ n : Fin N, 0 < sc[n])
+    (n : Fin N) (hlik : 0 < siteLik freqs props (Pf.get (rootOf ts)) n) :
+    Trans.log (siteLik freqs props ((peelSafeWith below scaler M Pf ts).st.get (rootOf ts)) n)
+      + logScalers (peelSafeWith below scaler M Pf ts).scalers n
+    = Trans.log (siteLik freqs props (Pf.get (rootOf ts)) n) := by
+  have hmul := siteLik_safe_mul (T := T) below scaler M freqs props Pf ts hwf hcons
+    (fun sc h n => (hpos sc h n).ne') n
+  set ss := peelSafeWith below scaler M Pf ts with hss
+  have hne : ∀ x ∈ ss.scalers.map (fun sc => sc[n]), x ≠ 0 := by
+    intro x hx
+    obtain ⟨sc, hsc, rfl⟩ := List.mem_map.mp hx
+    exact (hpos sc hsc n).ne'
+  have hprodpos : (0 : ℝ) < (ss.scalers.map fun sc => sc[n]).prod := by
+    apply List.prod_pos
+    intro x hx
+    obtain ⟨sc, hsc, rfl⟩ := List.mem_map.mp hx
+    exact hpos sc hsc n
+  have hq : siteLik freqs props (ss.st.get (rootOf ts)) n ≠ 0 := by
+    intro h0
+    rw [hmul, h0, mul_zero] at hlik
+    exact lt_irrefl _ hlik
+  rw [hmul]
+  simp only [trans_log_real, logScalers]
+  rw [Real.log_mul hprodpos.ne' hq, Real.log_list_prod hne, List.map_map]
+  rw [add_comm]
+  rfl
+
+/-- **safe = plain as `calculate_with_tip_partials` uses it**: plain pass on any start list `st`,
+  then the safe pass (the code's threshold test and `max` scalers) on what it left -/
+theorem safe_eq_plain (T : Nat) (thr : ℝ) (M : Mats ℝ K S) (freqs : Fin S → ℝ) (props : Fin K → ℝ)
+    (st : Store ℝ N K S) (ts : List Triple) (hwf : wf T ts = true)
+    (hpos : ∀ sc ∈ (peelSafe thr M (peel 0 noTips M st ts) ts).scalers, ∀ n : Fin N, 0 < sc[n])
+    (n : Fin N) (hlik : 0 < siteLik freqs props ((peel 0 noTips M st ts).get (rootOf ts)) n) :
+    Trans.log (siteLik freqs props
+        ((peelSafe thr M (peel 0 noTips M st ts) ts).st.get (rootOf ts)) n)
+      + logScalers (peelSafe thr M (peel 0 noTips M st ts) ts).scalers n
+    = Trans.log (siteLik freqs props ((peel 0 noTips M st ts).get (rootOf ts)) n) :=
+  safe_eq_plain_of_consistent T _ _ M freqs props _ ts hwf
+    (peel_consistent (T := T) M ts st [] [] _ (fun _ h => by simp at h) (wf_unpack hwf)) hpos n hlik
+
+/-- returned numbers: safe pass after a plain pass = the plain pass -/
+theorem logLik_safe_eq_plain (T : Nat) (thr : ℝ) (M : Mats ℝ K S) (freqs : Fin S → ℝ)
+    (props : Fin K → ℝ) (w : Fin N → ℝ) (st : Store ℝ N K S) (ts : List Triple)
+    (hwf : wf T ts = true)
+    (hpos : ∀ sc ∈ (peelSafe thr M (peel 0 noTips M st ts) ts).scalers, ∀ n : Fin N, 0 < sc[n])
+    (hlik : ∀ n, 0 < siteLik freqs props ((peel 0 noTips M st ts).get (rootOf ts)) n) :
+    logLikScaled freqs props w ((peelSafe thr M (peel 0 noTips M st ts) ts).st.get (rootOf ts))
+        (peelSafe thr M (peel 0 noTips M st ts) ts).scalers
+      = logLikPlain freqs props w ((peel 0 noTips M st ts).get (rootOf ts)) := by
+  unfold logLikScaled logLikPlain
+  congr 1
+  funext n
+  rw [safe_eq_plain T thr M freqs props st ts hwf hpos n (hlik n)]
+
+example (thr : ℝ) (w : Fin 1 → ℝ) :
+    logLikScaled Ex.inp.freqs Ex.inp.props w
+        ((peelSafe thr Ex.M (peel 0 noTips Ex.M Ex.tips Ex.ts) Ex.ts).st.get (rootOf Ex.ts))
+        (peelSafe thr Ex.M (peel 0 noTips Ex.M Ex.tips Ex.ts) Ex.ts).scalers
+      = logLikPlain Ex.inp.freqs Ex.inp.props w ((peel 0 noTips Ex.M Ex.tips Ex.ts).get (rootOf Ex.ts)) :=
+  logLik_safe_eq_plain 3 thr Ex.M _ _ w Ex.tips Ex.ts Ex.wf_ts (Ex.safe_pos thr Ex.tips (fun _ _ => rfl))
+    (Ex.plain_lik Ex.tips (fun _ _ => rfl))
+
+/-! ### the flag automaton -/
+
+/-- once the flag is set, an evaluation takes the rescaled branch and leaves the flag set -/
+theorem sticky_step (useTipStates b : Bool) : flagStep useTipStates true b = (.rescaled, true) := rfl
+
+/-- **sticky**: once set, EVERY later evaluation takes the rescaled branch and the flag stays set,
+  whatever the later plain passes would have returned -/
+theorem sticky (useTipStates : Bool) : ∀ bs : List Bool,
+    flagRun useTipStates true bs = (List.replicate bs.length Branch.rescaled, true)
+  | [] => rfl
+  | b :: bs => by
+      simp only [flagRun, sticky_step, sticky useTipStates bs, List.length_cons, List.replicate_succ]
+
+example : flagRun true true [false, true, false] = (List.replicate 3 Branch.rescaled, true) :=
+  sticky true _
+
+example : flagRun false false [false, true, false, false] =
+    ([.plain, .plainThenSafe, .rescaled, .rescaled], true) := by decide
+
+/-- the flag never goes back: after any history the flag is set iff it was set before or some
+  evaluation asked for the switch -/
+theorem flag_monotone (useTipStates : Bool) : ∀ (r : Bool) (bs : List Bool),
+    (flagRun useTipStates r bs).2 = (r || bs.any id)
+  | r, [] => by simp [flagRun]
+  | true, b :: bs => by simp [sticky]
+  | false, b :: bs => by
+      cases b
+      · simp [flagRun, flagStep, flag_monotone useTipStates false bs]
+      · simp [flagRun, flagStep, sticky]
+
+
+/-! ### `TreeLikelihoodModel`: every branch returns the same number; histories are consistent -/
+
+/-- the list holds the same tips as `st0` (slots `< T`); internal slots may hold anything
+  (leftovers of earlier evaluations) -/
+def TipsAgree (T : Nat) (st st0 : Store ℝ N K S) : Prop := ∀ i, i < T → st.get i = st0.get i
+
+/-- the plain root partial depends on the tips only, not on what earlier evaluations left -/
+theorem plain_root_indep (T tipCount : Nat) (tipc : Nat → Fin N → Fin K → Fin S → ℝ) (M : Mats ℝ K S)
+    (st st0 : Store ℝ N K S) (ts : List Triple) (hwf : wf T ts = true) (h : TipsAgree T st st0) :
+    (peel tipCount tipc M st ts).get (rootOf ts) = (peel tipCount tipc M st0 ts).get (rootOf ts) :=
+  peel_indep (T := T) tipCount tipc M ts st st0 [] [] _ (fun _ h => by simp at h) (wf_unpack hwf)
+    (fun i hi => h i (hi.resolve_right (by simp))) _ (List.mem_singleton.mpr rfl)
+
+/-- **one evaluation, tip-partials path**: whichever branch runs (flag set: rescaled; flag clear:
+  plain, or plain then safe when `switch` fires), the returned value is the plain log-likelihood -/
+theorem evalPartials_value (T : Nat) (switch : ℝ → Part ℝ N K S → Bool) (thr : ℝ) (w : Fin N → ℝ)
+    (ts : List Triple) (ms : MState ℝ N K S) (inp : Inputs ℝ K S) (hwf : wf T ts = true)
+    (hposR : ∀ sc ∈ (peelRescaled 0 noTips inp.mats ms.st ts).scalers, ∀ n : Fin N, 0 < sc[n])
+    (hposS : ∀ sc ∈ (peelSafe thr inp.mats (peel 0 noTips inp.mats ms.st ts) ts).scalers,
+      ∀ n : Fin N, 0 < sc[n])
+    (hlik : ∀ n, 0 < siteLik inp.freqs inp.props
+      ((peel 0 noTips inp.mats ms.st ts).get (rootOf ts)) n) :
+    (evalPartials switch thr w ts ms inp).1 =
+      logLikPlain inp.freqs inp.props w ((peel 0 noTips inp.mats ms.st ts).get (rootOf ts)) := by
+  unfold evalPartials
+  cases hr : ms.rescale
+  · simp only [Bool.false_eq_true, if_false]
+    split
+    · exact logLik_safe_eq_plain T thr inp.mats inp.freqs inp.props w ms.st ts hwf hposS hlik
+    · rfl
+  · simp only [if_true]
+    exact logLik_rescaled_eq_plain T 0 (Nat.zero_le T) _ noTips inp.mats inp.freqs inp.props w ms.st ts
+      hwf hposR hlik
+
+/-- **one evaluation, tip-states path** (plain, plain then rescaled, or rescaled) -/
+theorem evalStates_value (switch : ℝ → Part ℝ N K S → Bool) (w : Fin N → ℝ)
+    (ts : List Triple) (states : Nat → Fin N → Nat) (ms : MState ℝ N K S) (inp : Inputs ℝ K S)
+    (hwf : wf (ts.length + 1) ts = true)
+    (hpos : ∀ st', ∀ sc ∈ (peelRescaled (ts.length + 1) (tipVec inp.mats states) inp.mats st' ts).scalers,
+      ∀ n : Fin N, 0 < sc[n])
+    (hlik : ∀ n, 0 < siteLik inp.freqs inp.props
+      ((peel (ts.length + 1) (tipVec inp.mats states) inp.mats ms.st ts).get (rootOf ts)) n) :
+    (evalStates switch w ts states ms inp).1 =
+      logLikPlain inp.freqs inp.props w
+        ((peel (ts.length + 1) (tipVec inp.mats states) inp.mats ms.st ts).get (rootOf ts)) := by
+  unfold evalStates
+  cases hr : ms.rescale
+  swap
+  · simp only [if_true]
+    exact logLik_rescaled_eq_plain _ _ (Nat.le_refl _) _ _ inp.mats inp.freqs inp.props w ms.st ts
+      hwf (hpos ms.st) hlik
+  · simp only [Bool.false_eq_true, if_false]
+    split
+    · -- second pass starts from the list the plain pass left; same number by independence
+      have hag : TipsAgree (ts.length + 1)
+          (peel (ts.length + 1) (tipVec inp.mats states) inp.mats ms.st ts) ms.st := fun i hi =>
+        peel_get_keep (T := ts.length + 1) _ _ inp.mats ts ms.st [] [] _ (wf_unpack hwf) i (Or.inl hi)
+      have hroot := plain_root_indep (ts.length + 1) (ts.length + 1) (tipVec inp.mats states) inp.mats
+        _ ms.st ts hwf hag
+      have := logLik_rescaled_eq_plain (ts.length + 1) (ts.length + 1) (Nat.le_refl _)
+        (fun _ n p => maxKS p n) (tipVec inp.mats states) inp.mats inp.freqs inp.props w
+        (peel (ts.length + 1) (tipVec inp.mats states) inp.mats ms.st ts) ts hwf (hpos _)
+        (by rw [hroot]; exact hlik)
+      rw [hroot] at this
+      exact this
+    · rfl
+
+example (sw : ℝ → Part ℝ 1 1 2 → Bool) (thr : ℝ) (w : Fin 1 → ℝ) (flag : Bool) :
+    (evalPartials sw thr w Ex.ts ⟨flag, Ex.tips⟩ Ex.inp).1 =
+      logLikPlain Ex.inp.freqs Ex.inp.props w ((peel 0 noTips Ex.M Ex.tips Ex.ts).get (rootOf Ex.ts)) :=
+  evalPartials_value 3 sw thr w Ex.ts ⟨flag, Ex.tips⟩ Ex.inp Ex.wf_ts (Ex.resc_pos Ex.tips (fun _ _ => rfl))
+    (Ex.safe_pos thr Ex.tips (fun _ _ => rfl)) (Ex.plain_lik Ex.tips (fun _ _ => rfl))
+
+example (sw : ℝ → Part ℝ 1 1 2 → Bool) (w : Fin 1 → ℝ) (ms : MState ℝ 1 1 2) :
+    (evalStates sw w Ex.ts Ex.states ms Ex.inp).1 =
+      logLikPlain Ex.inp.freqs Ex.inp.props w
+        ((peel (Ex.ts.length + 1) (tipVec Ex.inp.mats Ex.states) Ex.inp.mats ms.st Ex.ts).get (rootOf Ex.ts)) :=
+  evalStates_value sw w Ex.ts Ex.states ms Ex.inp Ex.wf_ts (fun st' => Ex.resc_pos_ts st')
+    (Ex.plain_lik_ts ms.st)
+
+/-- the flag and the branch of one evaluation are those of the automaton `flagStep` -/
+theorem evalPartials_flag (switch : ℝ → Part ℝ N K S → Bool) (thr : ℝ) (w : Fin N → ℝ)
+    (ts : List Triple) (ms : MState ℝ N K S) (inp : Inputs ℝ K S) :
+    ((evalPartials switch thr w ts ms inp).2.1, (evalPartials switch thr w ts ms inp).2.2.rescale) =
+      flagStep false ms.rescale
+        (switch (logLikPlain inp.freqs inp.props w ((peel 0 noTips inp.mats ms.st ts).get (rootOf ts)))
+          ((peel 0 noTips inp.mats ms.st ts).get (rootOf ts))) := by
+  unfold evalPartials flagStep
+  cases hr : ms.rescale
+  · simp only [Bool.false_eq_true, if_false]
+    split <;> simp_all
+  · simp
+
+/-- an evaluation never touches the tip slots -/
+theorem evalPartials_tips (T : Nat) (switch : ℝ → Part ℝ N K S → Bool) (thr : ℝ) (w : Fin N → ℝ)
+    (ts : List Triple) (ms : MState ℝ N K S) (inp : Inputs ℝ K S) (hwf : wf T ts = true) :
+    TipsAgree T (evalPartials switch thr w ts ms inp).2.2.st ms.st := by
+  intro i hi
+  have hp : (peel 0 noTips inp.mats ms.st ts).get i = ms.st.get i :=
+    peel_get_keep (T := T) 0 noTips inp.mats ts ms.st [] [] _ (wf_unpack hwf) i (Or.inl hi)
+  unfold evalPartials
+  cases hr : ms.rescale
+  · simp only [Bool.false_eq_true, if_false]
+    split
+    · show (peelSafe thr inp.mats (peel 0 noTips inp.mats ms.st ts) ts).st.get i = _
+      rw [← hp]
+      exact safe_get_keep (T := T) _ _ inp.mats ts ⟨_, fun _ => false, []⟩ [] [] _ (wf_unpack hwf) i hi
+    · exact hp
+  · simp only [if_true]
+    exact resc_get_keep (T := T) _ 0 noTips inp.mats ts ⟨ms.st, []⟩ [] [] _ (wf_unpack hwf) i hi
+
+/-- **history consistency** (tip-partials path): for ANY sequence of evaluations — any inputs, any
+  switch tests (so whatever the float64 passes return and whenever the flag gets set), any state the
+  object starts in — the i-th returned value is the plain log-likelihood of the i-th inputs on the
+  tips. Scalers are assumed positive for every list holding these tips. -/
+theorem history_consistent (T : Nat) (thr : ℝ) (w : Fin N → ℝ) (ts : List Triple)
+    (st0 : Store ℝ N K S) (hwf : wf T ts = true) :
+    ∀ (hist : List (Inputs ℝ K S × (ℝ → Part ℝ N K S → Bool))) (ms : MState ℝ N K S),
+      TipsAgree T ms.st st0 →
+      (∀ e ∈ hist, ∀ st', TipsAgree T st' st0 →
+        ∀ sc ∈ (peelRescaled 0 noTips e.1.mats st' ts).scalers, ∀ n : Fin N, 0 < sc[n]) →
+      (∀ e ∈ hist, ∀ st', TipsAgree T st' st0 →
+        ∀ sc ∈ (peelSafe thr e.1.mats (peel 0 noTips e.1.mats st' ts) ts).scalers,
+          ∀ n : Fin N, 0 < sc[n]) →
+      (∀ e ∈ hist, ∀ n, 0 < siteLik e.1.freqs e.1.props
+        ((peel 0 noTips e.1.mats st0 ts).get (rootOf ts)) n) →
+      (runPartials thr w ts ms hist).map (·.1) =
+        hist.map fun e => logLikPlain e.1.freqs e.1.props w
+          ((peel 0 noTips e.1.mats st0 ts).get (rootOf ts))
+  | [], _, _, _, _, _ => rfl
+  | e :: rest, ms, hag, hR, hS, hL => by
+      have hroot := plain_root_indep T 0 noTips e.1.mats ms.st st0 ts hwf hag
+      have hv := evalPartials_value T e.2 thr w ts ms e.1 hwf
+        (hR e (List.mem_cons_self) ms.st hag) (hS e (List.mem_cons_self) ms.st hag)
+        (by rw [hroot]; exact hL e (List.mem_cons_self))
+      have hag' : TipsAgree T (evalPartials e.2 thr w ts ms e.1).2.2.st st0 := fun i hi =>
+        (evalPartials_tips T e.2 thr w ts ms e.1 hwf i hi).trans (hag i hi)
+      have ih := history_consistent T thr w ts st0 hwf rest _ hag'
+        (fun e' h => hR e' (List.mem_cons_of_mem _ h)) (fun e' h => hS e' (List.mem_cons_of_mem _ h))
+        (fun e' h => hL e' (List.mem_cons_of_mem _ h))
+      simp only [runPartials, List.map_cons, ih, hv, hroot]
+
+/-- a two-evaluation history on `Ex` starting from ANY object state (flag and leftovers
+  arbitrary), with arbitrary switch tests: both evaluations return the plain value -/
+example (thr : ℝ) (w : Fin 1 → ℝ) (sw1 sw2 : ℝ → Part ℝ 1 1 2 → Bool) (ms : MState ℝ 1 1 2)
+    (h : TipsAgree 3 ms.st Ex.tips) :
+    (runPartials thr w Ex.ts ms [(Ex.inp, sw1), (Ex.inp, sw2)]).map (·.1) =
+      [logLikPlain Ex.inp.freqs Ex.inp.props w ((peel 0 noTips Ex.M Ex.tips Ex.ts).get (rootOf Ex.ts)),
+       logLikPlain Ex.inp.freqs Ex.inp.props w ((peel 0 noTips Ex.M Ex.tips Ex.ts).get (rootOf Ex.ts))] := by
+  have := history_consistent 3 thr w Ex.ts Ex.tips Ex.wf_ts [(Ex.inp, sw1), (Ex.inp, sw2)] ms h
+    (by intro e he st' hs
+        simp only [List.mem_cons, List.not_mem_nil, or_false] at he
+        rcases he with rfl | rfl <;> exact Ex.resc_pos st' hs)
+    (by intro e he st' hs
+        simp only [List.mem_cons, List.not_mem_nil, or_false] at he
+        rcases he with rfl | rfl <;> exact Ex.safe_pos thr st' hs)
+    (by intro e he
+        simp only [List.mem_cons, List.not_mem_nil, or_false] at he
+        rcases he with rfl | rfl <;> exact Ex.plain_lik Ex.tips (fun _ _ => rfl))
+  exact this
+
+/-- **sticky, on the model object**: started with the flag set, every evaluation of any history
+  takes the rescaled branch and leaves the flag set -/
+theorem sticky_history (thr : ℝ) (w : Fin N → ℝ) (ts : List Triple) :
+    ∀ (hist : List (Inputs ℝ K S × (ℝ → Part ℝ N K S → Bool))) (ms : MState ℝ N K S),
+      ms.rescale = true →
+      (runPartials thr w ts ms hist).map (·.2) = List.replicate hist.length (Branch.rescaled, true)
+  | [], _, _ => rfl
+  | e :: rest, ms, h => by
+      have hf := evalPartials_flag e.2 thr w ts ms e.1
+      rw [h, sticky_step] at hf
+      have h1 : (evalPartials e.2 thr w ts ms e.1).2.1 = Branch.rescaled := (Prod.ext_iff.mp hf).1
+      have h2 : (evalPartials e.2 thr w ts ms e.1).2.2.rescale = true := (Prod.ext_iff.mp hf).2
+      simp only [runPartials, List.map_cons, List.length_cons, List.replicate_succ,
+        sticky_history thr w ts rest _ h2, h1, h2]
+
+
+example (thr : ℝ) (w : Fin 1 → ℝ) (sw1 sw2 : ℝ → Part ℝ 1 1 2 → Bool) (st : Store ℝ 1 1 2) :
+    (runPartials thr w Ex.ts ⟨true, st⟩ [(Ex.inp, sw1), (Ex.inp, sw2)]).map (·.2) =
+      [(Branch.rescaled, true), (Branch.rescaled, true)] :=
+  sticky_history thr w Ex.ts _ ⟨true, st⟩ rfl
+
 end TTProps.C03
